@@ -25,6 +25,31 @@ from collections import Counter
 DEPS = os.path.join(os.path.dirname(os.path.dirname(os.path.abspath(__file__))), ".deps")
 
 
+def _fix_bytestring_provider():
+    """hypothesis 6.168: BytestringProvider.draw_integer draws bit_length(max - min) bits and then tests
+    min <= value <= max WITHOUT adding min, so integers(2, 3) (values 0/1 only) rejects for ever and every buffer ends as an
+    overrun - any strategy containing such a draw is unreachable through fuzz_one_input.  Same scheme, offset by min."""
+    from hypothesis.internal.conjecture.providers import BytestringProvider
+
+    def draw_integer(self, min_value=None, max_value=None, *, weights=None, shrink_towards=0):
+        if min_value is None and max_value is None:
+            min_value, max_value = -(2 ** 127), 2 ** 127 - 1
+        elif min_value is None:
+            min_value = max_value - 2 ** 64
+        elif max_value is None:
+            max_value = min_value + 2 ** 64
+        if min_value == max_value:
+            return min_value
+        span = max_value - min_value
+        bits = span.bit_length()
+        value = self._draw_bits(bits)
+        while value > span:
+            value = self._draw_bits(bits)
+        return min_value + value
+
+    BytestringProvider.draw_integer = draw_integer
+
+
 def main(argv):
     prop_name, tier, seed, worker, runs, outdir = argv[0], argv[1], int(argv[2]), int(argv[3]), int(argv[4]), argv[5]
     os.environ["VERIF_TIER"] = tier
@@ -39,6 +64,7 @@ def main(argv):
         prop = importlib.import_module(f"props.{prop_name}")
     from hypothesis import HealthCheck, Phase, given, settings
 
+    _fix_bytestring_provider()
     from vlib import runner
     from vlib.model import digest, hexdigest
 
@@ -85,16 +111,26 @@ def main(argv):
     test = settings(database=None, deadline=None, derandomize=False, print_blob=False, suppress_health_check=list(HealthCheck), phases=[Phase.generate])(test)
     corpus = os.path.join(outdir, f"corpus_{worker}")
     os.makedirs(corpus, exist_ok=True)
-    # Hypothesis rejects buffers that are too short for the strategy, and libFuzzer starts from the empty input: give it a
-    # few long pseudo-random buffers to mutate (a pure function of seed and worker; hashlib, no RNG state)
+    # Hypothesis rejects buffers that are too short for the strategy or that run into an assume(), and libFuzzer starts
+    # from the empty input: screen pseudo-random buffers (a pure function of seed, worker and index; hashlib, no RNG state)
+    # through the target itself and seed the corpus with the canonical form of those the generator accepts
     import hashlib
 
-    for q in range(8):
-        blob = b"".join(hashlib.sha256(b"%d/%d/%d/%d" % (seed, worker, q, i)).digest() for i in range(32 * (1 + q % 4)))
-        with open(os.path.join(corpus, f"seed_{q}"), "wb") as f:
-            f.write(blob)
+    fuzz = test.hypothesis.fuzz_one_input
+    kept = 0
+    for q in range(600):
+        n = (256, 1024, 4096, 16384)[q % 4]
+        blob = b"".join(hashlib.sha256(b"%d/%d/%d/%d" % (seed, worker, q, i)).digest() for i in range(n // 32))
+        canon_buf = fuzz(blob)
+        if canon_buf is not None:
+            with open(os.path.join(corpus, f"seed_{q}"), "wb") as f:
+                f.write(bytes(canon_buf))
+            kept += 1
+            if kept >= 12:
+                break
+    st["tags"]["cgf-seed-inputs"] = kept
     flush()
-    args = [sys.argv[0], f"-runs={runs}", f"-seed={(seed * 1000003 + worker * 7919 + 29) % (2 ** 31 - 1) or 1}", "-max_len=8192", "-len_control=0", "-print_final_stats=1", "-verbosity=1", corpus]
+    args = [sys.argv[0], f"-runs={runs}", f"-seed={(seed * 1000003 + worker * 7919 + 29) % (2 ** 31 - 1) or 1}", "-max_len=65536", "-len_control=0", "-print_final_stats=1", "-verbosity=1", corpus]
     atheris.Setup(args, test.hypothesis.fuzz_one_input)
     atheris.Fuzz()
 
